@@ -40,3 +40,29 @@ _m("C01",
 
 # properties not claimed, with the reason (kept current; see DESIGN.md §9)
 NOT_APPLICABLE = {}
+
+_m("C08",
+   "In every COMMIT function (found by role: calls a content publication and an index insertion; put sync/async and, with "
+   "link_to, both linkers) of every configuration: the index-insertion call and every success return are unreachable from "
+   "entry once the edges {declared integrity is None, Integrity::matches(declared, computed) is Some} are cut, and likewise "
+   "for {declared size is None, declared size == byte counter}; the operands are the right ones (WriteOpts.sri vs the "
+   "integrity returned by the publication call; WriteOpts.size vs the writer's own usize counter; MIR Eq/Ne only); each "
+   "mismatch arm constructs the documented error (ssri::Error::IntegrityCheckError / Error::SizeMismatch(declared, counted)) "
+   "and reaches neither the insertion nor a success return.",
+   "ssri's `matches` semantics for multi-hash values; that the counter is the true byte count (C02 c); behaviour for particular "
+   "data/chunkings; the prior state of the key at run time.",
+   "MIR gate-cut reachability (must-pass-through) + operand provenance + failure-arm dominance",
+   "exhaustive static analysis of the guard structure of every commit path in every configuration (necessary conditions)")
+
+_m("C04",
+   "(a) In every COMMIT the index-insertion call is reachable only through the Ok arm of the content publication "
+   "(close()/linker commit, `?` or match) — a visible entry implies published content. (b) Every INDEX_INSERT emits a record "
+   "with exactly one write_all on the append handle, outside any loop, of one buffer whose decoded format template is "
+   "\"\\n{HASH_ENTRY(json)}\\t{json}\" with the same json term in both placeholders (HASH_ENTRY = SHA-256-hex role) — records "
+   "are self-delimiting and checksummed. (c) Bucket files are only opened append+create or read-only, never written/truncated "
+   "in place, removed only by RemoveOpts' documented full removal; removing a key is the insertion of a tombstone whose "
+   "integrity is the constant None.",
+   "What a reader sees for each torn length and continuation history (needs execution); fsync/durability; kernel atomicity of "
+   "O_APPEND writes; the reader's validate-and-skip behaviour is decided under C06.",
+   "MIR gate-cut reachability + effect inventory constraints + format-template decoding",
+   "exhaustive static analysis of ordering and record-emission structure in every configuration (necessary conditions)")
